@@ -51,11 +51,15 @@ func ReadChunks(ctx context.Context, r io.Reader) *ChunkIterator {
 	ipc := make(chan *birch.Document)
 	ctx, iter.cancel = context.WithCancel(ctx)
 
+	// the error is recorded before the channel is closed: once Next
+	// has returned false, Err reports everything that went wrong.
 	go func() {
+		defer close(ipc)
 		iter.catcher.Add(readDiagnostic(ctx, r, ipc))
 	}()
 
 	go func() {
+		defer close(iter.pipe)
 		iter.catcher.Add(readChunks(ctx, ipc, iter.pipe))
 	}()
 
